@@ -204,7 +204,8 @@ HeaderCheck(frame, api, corr, cid) ==
   ELSE "ok"
 
 \* Produce request:
-\*   e = [topic, partition, acks, payloads, corr, cid, frame, braised (serializer), hraised (header builder)]
+\*   e = [topic, partition (-1 = chosen by the balancer among the topic's partitions, not an input), acks,
+\*        payloads, corr, cid, frame, braised (serializer), hraised (header builder)]
 ReqCheck(e) ==
   IF ~(IsBytes(e.frame) /\ IsBytes(e.topic) /\ IsBytes(e.cid) /\ \A i \in DOMAIN e.payloads : IsBytes(e.payloads[i]))
     THEN "harness.input"
@@ -221,7 +222,7 @@ ReqCheck(e) ==
   ELSE IF ~b.ok THEN "C15.messageSize"
   ELSE IF b.acks # e.acks THEN "C15.acks"
   ELSE IF b.ntopics # 1 \/ b.topic # e.topic THEN "C15.topic"                \* one topic
-  ELSE IF b.nparts # 1 \/ b.partition # e.partition THEN "C15.partition"     \* one partition
+  ELSE IF b.nparts # 1 \/ (e.partition # -1 /\ b.partition # e.partition) THEN "C15.partition"  \* one partition
   ELSE IF \E i \in DOMAIN b.msgs : ~b.msgs[i].sizeOk THEN "C15.messageSize"
   ELSE IF \E i \in DOMAIN b.msgs : ~b.msgs[i].crcOk THEN "C15.crc"           \* per-message CRC32 verifies
   ELSE IF Len(b.msgs) # n THEN "C15.messageCount"
@@ -229,11 +230,24 @@ ReqCheck(e) ==
   ELSE IF \E i \in 1..n : b.msgs[i].value # e.payloads[i] THEN "C15.value"
   \* bytes = Encode(input); timeout, per-message offsets and keys are not inputs: taken as decoded
   ELSE IF e.frame # RequestFrame(ProduceKey, e.corr, e.cid,
-                       ProduceBody(e.acks, b.timeout, e.topic, e.partition,
+                       ProduceBody(e.acks, b.timeout, e.topic, b.partition,
                                    [i \in 1..n |-> [off |-> b.msgs[i].off, nokey |-> b.msgs[i].nokey,
                                                     key |-> b.msgs[i].key, value |-> e.payloads[i]]]))
     THEN "C15.bytes"
   ELSE "ok"
+
+\* A produce request seen by the broker of a complete client (retry mode).  A Put whose connection failed may be
+\* re-sent by the router long after the caller gave up, so a frame is attributed to the Put in whose window it
+\* arrived (the fields of e) or, failing that, to any earlier Put of the run (e.alts: sequence of
+\* [topic, partition, acks, payloads]): it must be a well-formed request for one of them.
+ReqRCheck(e) ==
+  LET first == ReqCheck(e) IN
+  IF first = "ok" \/ first = "harness.input" THEN first
+  ELSE IF \E i \in DOMAIN e.alts :
+            ReqCheck([e EXCEPT !.topic = e.alts[i].topic, !.partition = e.alts[i].partition,
+                               !.acks = e.alts[i].acks, !.payloads = e.alts[i].payloads]) = "ok"
+    THEN "ok"
+  ELSE first
 
 \* Header of any request (here: the metadata request): e = [api, corr, cid, frame, braised, hraised]
 HdrCheck(e) ==
